@@ -18,6 +18,13 @@ def prefixes(tier):
     for n in ([256] if tier == "quick" else [255, 256, 257, 512]):
         ps.append(("garbage%d-collected-refill" % n, ["Bulk(%d,3)" % n, "Collect", "Bulk(3,0)"]))
         ps.append(("cycle%d-unrooted" % n, ["Bulk(%d,2)" % n, "Clear(0)"]))
+    # thousands of objects behind one guard: root lists that outgrow 4 chunks' worth of capacity (Vec growth steps
+    # 1024 -> 2048 -> 4096 -> 8192), the guard then cleared, dropped (its buffer goes to the guard pool) and a new guard created
+    for n in ([1025, 4097] if tier == "quick" else [1023, 1024, 1025, 2047, 2048, 2049, 4097]):
+        for s in (0, 3):
+            ps.append(("bulk%d-shape%d" % (n, s), ["Bulk(%d,%d)" % (n, s)]))
+        ps.append(("bigguard%d-dropped" % n, ["Bulk(%d,1)" % n, "DropGuard(0)"]))
+        ps.append(("bigguard%d-dropped-collected" % n, ["Bulk(%d,2)" % n, "DropGuard(0)", "Collect"]))
     for n in ([16, 17] if tier == "quick" else [14, 15, 16, 17, 18, 20]):
         ps.append(("guardchurn%d" % n, ["GuardChurn(%d)" % n]))
         ps.append(("guardchurn%d-collected" % n, ["GuardChurn(%d)" % n, "Collect", "NewGuard"]))
